@@ -8,6 +8,7 @@ pub mod tree;
 pub mod c16;
 pub mod ghost;
 pub mod pspec;
+pub mod perr;
 pub mod layer_e;
 pub mod gl;
 pub mod c11;
@@ -23,6 +24,7 @@ pub use tree::*;
 pub use c16::*;
 pub use ghost::*;
 pub use pspec::*;
+pub use perr::*;
 pub use layer_e::*;
 pub use gl::*;
 pub use c11::*;
